@@ -166,6 +166,577 @@ CONSTANTS MaxPkts,     \* packets the environment may deliver
   }
 } *)
 \* BEGIN TRANSLATION
+VARIABLES pc, alock, slock, inbox, delivered, connClosed, readDeadline, state, 
+          closeWriteLoopCh, readLoopCloseCh, acceptChClosed, awake, 
+          connWaiting, hsResult, readErr, readable, willAbort, abortSent, 
+          timersClosed, t1Count
+
+(* define statement *)
+Lock(v, me) == v = 0
+LoopsGone == readLoopCloseCh /\ closeWriteLoopCh
+
+VARIABLES wfail, sentPkts
+
+vars == << pc, alock, slock, inbox, delivered, connClosed, readDeadline, 
+           state, closeWriteLoopCh, readLoopCloseCh, acceptChClosed, awake, 
+           connWaiting, hsResult, readErr, readable, willAbort, abortSent, 
+           timersClosed, t1Count, wfail, sentPkts >>
+
+ProcSet == {1} \cup {2} \cup {3} \cup {4} \cup {5} \cup ({6, 7}) \cup {8} \cup {9}
+
+Init == (* Global variables *)
+        /\ alock = 0
+        /\ slock = 0
+        /\ inbox = 0
+        /\ delivered = 0
+        /\ connClosed = FALSE
+        /\ readDeadline = FALSE
+        /\ state = "cookieWait"
+        /\ closeWriteLoopCh = FALSE
+        /\ readLoopCloseCh = FALSE
+        /\ acceptChClosed = FALSE
+        /\ awake = FALSE
+        /\ connWaiting = TRUE
+        /\ hsResult = "none"
+        /\ readErr = FALSE
+        /\ readable = FALSE
+        /\ willAbort = FALSE
+        /\ abortSent = FALSE
+        /\ timersClosed = FALSE
+        /\ t1Count = 0
+        (* Process WriteLoop *)
+        /\ wfail = FALSE
+        (* Process Env *)
+        /\ sentPkts = 0
+        /\ pc = [self \in ProcSet |-> CASE self = 1 -> "rl"
+                                        [] self = 2 -> "wl"
+                                        [] self = 3 -> "t1"
+                                        [] self = 4 -> "c1"
+                                        [] self = 5 -> "r1"
+                                        [] self \in {6, 7} -> "cl0"
+                                        [] self = 8 -> "ab0"
+                                        [] self = 9 -> "e1"]
+
+rl == /\ pc[1] = "rl"
+      /\ pc' = [pc EXCEPT ![1] = "rd"]
+      /\ UNCHANGED << alock, slock, inbox, delivered, connClosed, readDeadline, 
+                      state, closeWriteLoopCh, readLoopCloseCh, acceptChClosed, 
+                      awake, connWaiting, hsResult, readErr, readable, 
+                      willAbort, abortSent, timersClosed, t1Count, wfail, 
+                      sentPkts >>
+
+rd == /\ pc[1] = "rd"
+      /\ inbox > 0 \/ connClosed \/ readDeadline
+      /\ IF connClosed \/ readDeadline
+            THEN /\ pc' = [pc EXCEPT ![1] = "rexit"]
+                 /\ inbox' = inbox
+            ELSE /\ inbox' = inbox - 1
+                 /\ pc' = [pc EXCEPT ![1] = "rlk"]
+      /\ UNCHANGED << alock, slock, delivered, connClosed, readDeadline, state, 
+                      closeWriteLoopCh, readLoopCloseCh, acceptChClosed, awake, 
+                      connWaiting, hsResult, readErr, readable, willAbort, 
+                      abortSent, timersClosed, t1Count, wfail, sentPkts >>
+
+rlk == /\ pc[1] = "rlk"
+       /\ alock = 0
+       /\ alock' = 1
+       /\ pc' = [pc EXCEPT ![1] = "rh"]
+       /\ UNCHANGED << slock, inbox, delivered, connClosed, readDeadline, 
+                       state, closeWriteLoopCh, readLoopCloseCh, 
+                       acceptChClosed, awake, connWaiting, hsResult, readErr, 
+                       readable, willAbort, abortSent, timersClosed, t1Count, 
+                       wfail, sentPkts >>
+
+rh == /\ pc[1] = "rh"
+      /\ IF state \in {"cookieWait"} /\ delivered = 0
+            THEN /\ state' = "established"
+                 /\ delivered' = delivered + 1
+                 /\ pc' = [pc EXCEPT ![1] = "rch"]
+                 /\ UNCHANGED << awake, readable >>
+            ELSE /\ delivered' = delivered + 1
+                 /\ readable' = TRUE
+                 /\ awake' = TRUE
+                 /\ pc' = [pc EXCEPT ![1] = "rul"]
+                 /\ state' = state
+      /\ UNCHANGED << alock, slock, inbox, connClosed, readDeadline, 
+                      closeWriteLoopCh, readLoopCloseCh, acceptChClosed, 
+                      connWaiting, hsResult, readErr, willAbort, abortSent, 
+                      timersClosed, t1Count, wfail, sentPkts >>
+
+rch == /\ pc[1] = "rch"
+       /\ connWaiting \/ closeWriteLoopCh \/ readLoopCloseCh
+       /\ IF connWaiting /\ hsResult = "none"
+             THEN /\ hsResult' = "ok"
+                  /\ connWaiting' = FALSE
+             ELSE /\ TRUE
+                  /\ UNCHANGED << connWaiting, hsResult >>
+       /\ pc' = [pc EXCEPT ![1] = "rul"]
+       /\ UNCHANGED << alock, slock, inbox, delivered, connClosed, 
+                       readDeadline, state, closeWriteLoopCh, readLoopCloseCh, 
+                       acceptChClosed, awake, readErr, readable, willAbort, 
+                       abortSent, timersClosed, t1Count, wfail, sentPkts >>
+
+rul == /\ pc[1] = "rul"
+       /\ alock' = 0
+       /\ pc' = [pc EXCEPT ![1] = "rl"]
+       /\ UNCHANGED << slock, inbox, delivered, connClosed, readDeadline, 
+                       state, closeWriteLoopCh, readLoopCloseCh, 
+                       acceptChClosed, awake, connWaiting, hsResult, readErr, 
+                       readable, willAbort, abortSent, timersClosed, t1Count, 
+                       wfail, sentPkts >>
+
+rexit == /\ pc[1] = "rexit"
+         /\ closeWriteLoopCh' = TRUE
+         /\ pc' = [pc EXCEPT ![1] = "rxl"]
+         /\ UNCHANGED << alock, slock, inbox, delivered, connClosed, 
+                         readDeadline, state, readLoopCloseCh, acceptChClosed, 
+                         awake, connWaiting, hsResult, readErr, readable, 
+                         willAbort, abortSent, timersClosed, t1Count, wfail, 
+                         sentPkts >>
+
+rxl == /\ pc[1] = "rxl"
+       /\ alock = 0
+       /\ alock' = 1
+       /\ pc' = [pc EXCEPT ![1] = "rx2"]
+       /\ UNCHANGED << slock, inbox, delivered, connClosed, readDeadline, 
+                       state, closeWriteLoopCh, readLoopCloseCh, 
+                       acceptChClosed, awake, connWaiting, hsResult, readErr, 
+                       readable, willAbort, abortSent, timersClosed, t1Count, 
+                       wfail, sentPkts >>
+
+rx2 == /\ pc[1] = "rx2"
+       /\ state' = "closed"
+       /\ readErr' = TRUE
+       /\ pc' = [pc EXCEPT ![1] = "rx3"]
+       /\ UNCHANGED << alock, slock, inbox, delivered, connClosed, 
+                       readDeadline, closeWriteLoopCh, readLoopCloseCh, 
+                       acceptChClosed, awake, connWaiting, hsResult, readable, 
+                       willAbort, abortSent, timersClosed, t1Count, wfail, 
+                       sentPkts >>
+
+rx3 == /\ pc[1] = "rx3"
+       /\ alock' = 0
+       /\ pc' = [pc EXCEPT ![1] = "rx4"]
+       /\ UNCHANGED << slock, inbox, delivered, connClosed, readDeadline, 
+                       state, closeWriteLoopCh, readLoopCloseCh, 
+                       acceptChClosed, awake, connWaiting, hsResult, readErr, 
+                       readable, willAbort, abortSent, timersClosed, t1Count, 
+                       wfail, sentPkts >>
+
+rx4 == /\ pc[1] = "rx4"
+       /\ acceptChClosed' = TRUE
+       /\ pc' = [pc EXCEPT ![1] = "rx5"]
+       /\ UNCHANGED << alock, slock, inbox, delivered, connClosed, 
+                       readDeadline, state, closeWriteLoopCh, readLoopCloseCh, 
+                       awake, connWaiting, hsResult, readErr, readable, 
+                       willAbort, abortSent, timersClosed, t1Count, wfail, 
+                       sentPkts >>
+
+rx5 == /\ pc[1] = "rx5"
+       /\ readLoopCloseCh' = TRUE
+       /\ pc' = [pc EXCEPT ![1] = "Done"]
+       /\ UNCHANGED << alock, slock, inbox, delivered, connClosed, 
+                       readDeadline, state, closeWriteLoopCh, acceptChClosed, 
+                       awake, connWaiting, hsResult, readErr, readable, 
+                       willAbort, abortSent, timersClosed, t1Count, wfail, 
+                       sentPkts >>
+
+ReadLoop == rl \/ rd \/ rlk \/ rh \/ rch \/ rul \/ rexit \/ rxl \/ rx2
+               \/ rx3 \/ rx4 \/ rx5
+
+wl == /\ pc[2] = "wl"
+      /\ pc' = [pc EXCEPT ![2] = "wlk"]
+      /\ UNCHANGED << alock, slock, inbox, delivered, connClosed, readDeadline, 
+                      state, closeWriteLoopCh, readLoopCloseCh, acceptChClosed, 
+                      awake, connWaiting, hsResult, readErr, readable, 
+                      willAbort, abortSent, timersClosed, t1Count, wfail, 
+                      sentPkts >>
+
+wlk == /\ pc[2] = "wlk"
+       /\ alock = 0
+       /\ alock' = 2
+       /\ pc' = [pc EXCEPT ![2] = "wg"]
+       /\ UNCHANGED << slock, inbox, delivered, connClosed, readDeadline, 
+                       state, closeWriteLoopCh, readLoopCloseCh, 
+                       acceptChClosed, awake, connWaiting, hsResult, readErr, 
+                       readable, willAbort, abortSent, timersClosed, t1Count, 
+                       wfail, sentPkts >>
+
+wg == /\ pc[2] = "wg"
+      /\ alock' = 0
+      /\ pc' = [pc EXCEPT ![2] = "ww"]
+      /\ UNCHANGED << slock, inbox, delivered, connClosed, readDeadline, state, 
+                      closeWriteLoopCh, readLoopCloseCh, acceptChClosed, awake, 
+                      connWaiting, hsResult, readErr, readable, willAbort, 
+                      abortSent, timersClosed, t1Count, wfail, sentPkts >>
+
+ww == /\ pc[2] = "ww"
+      /\ IF connClosed
+            THEN /\ connClosed' = TRUE
+                 /\ pc' = [pc EXCEPT ![2] = "wexit"]
+                 /\ UNCHANGED << state, closeWriteLoopCh, willAbort, abortSent, 
+                                 timersClosed >>
+            ELSE /\ IF willAbort
+                       THEN /\ abortSent' = TRUE
+                            /\ willAbort' = FALSE
+                            /\ state' = "closed"
+                            /\ connClosed' = TRUE
+                            /\ timersClosed' = TRUE
+                            /\ closeWriteLoopCh' = TRUE
+                            /\ pc' = [pc EXCEPT ![2] = "wdone"]
+                       ELSE /\ pc' = [pc EXCEPT ![2] = "wsel"]
+                            /\ UNCHANGED << connClosed, state, 
+                                            closeWriteLoopCh, willAbort, 
+                                            abortSent, timersClosed >>
+      /\ UNCHANGED << alock, slock, inbox, delivered, readDeadline, 
+                      readLoopCloseCh, acceptChClosed, awake, connWaiting, 
+                      hsResult, readErr, readable, t1Count, wfail, sentPkts >>
+
+wsel == /\ pc[2] = "wsel"
+        /\ awake \/ closeWriteLoopCh
+        /\ IF awake
+              THEN /\ awake' = FALSE
+                   /\ pc' = [pc EXCEPT ![2] = "wl"]
+              ELSE /\ pc' = [pc EXCEPT ![2] = "wab"]
+                   /\ awake' = awake
+        /\ UNCHANGED << alock, slock, inbox, delivered, connClosed, 
+                        readDeadline, state, closeWriteLoopCh, readLoopCloseCh, 
+                        acceptChClosed, connWaiting, hsResult, readErr, 
+                        readable, willAbort, abortSent, timersClosed, t1Count, 
+                        wfail, sentPkts >>
+
+wab == /\ pc[2] = "wab"
+       /\ alock = 0
+       /\ alock' = 2
+       /\ pc' = [pc EXCEPT ![2] = "wab2"]
+       /\ UNCHANGED << slock, inbox, delivered, connClosed, readDeadline, 
+                       state, closeWriteLoopCh, readLoopCloseCh, 
+                       acceptChClosed, awake, connWaiting, hsResult, readErr, 
+                       readable, willAbort, abortSent, timersClosed, t1Count, 
+                       wfail, sentPkts >>
+
+wab2 == /\ pc[2] = "wab2"
+        /\ IF willAbort
+              THEN /\ alock' = 0
+                   /\ pc' = [pc EXCEPT ![2] = "wl"]
+              ELSE /\ alock' = 0
+                   /\ pc' = [pc EXCEPT ![2] = "wexit"]
+        /\ UNCHANGED << slock, inbox, delivered, connClosed, readDeadline, 
+                        state, closeWriteLoopCh, readLoopCloseCh, 
+                        acceptChClosed, awake, connWaiting, hsResult, readErr, 
+                        readable, willAbort, abortSent, timersClosed, t1Count, 
+                        wfail, sentPkts >>
+
+wexit == /\ pc[2] = "wexit"
+         /\ state' = "closed"
+         /\ timersClosed' = TRUE
+         /\ pc' = [pc EXCEPT ![2] = "wdone"]
+         /\ UNCHANGED << alock, slock, inbox, delivered, connClosed, 
+                         readDeadline, closeWriteLoopCh, readLoopCloseCh, 
+                         acceptChClosed, awake, connWaiting, hsResult, readErr, 
+                         readable, willAbort, abortSent, t1Count, wfail, 
+                         sentPkts >>
+
+wdone == /\ pc[2] = "wdone"
+         /\ TRUE
+         /\ pc' = [pc EXCEPT ![2] = "Done"]
+         /\ UNCHANGED << alock, slock, inbox, delivered, connClosed, 
+                         readDeadline, state, closeWriteLoopCh, 
+                         readLoopCloseCh, acceptChClosed, awake, connWaiting, 
+                         hsResult, readErr, readable, willAbort, abortSent, 
+                         timersClosed, t1Count, wfail, sentPkts >>
+
+WriteLoop == wl \/ wlk \/ wg \/ ww \/ wsel \/ wab \/ wab2 \/ wexit \/ wdone
+
+t1 == /\ pc[3] = "t1"
+      /\ IF t1Count < T1Retries /\ ~timersClosed /\ state = "cookieWait"
+            THEN /\ t1Count' = t1Count + 1
+                 /\ pc' = [pc EXCEPT ![3] = "t1l"]
+            ELSE /\ pc' = [pc EXCEPT ![3] = "t1f"]
+                 /\ UNCHANGED t1Count
+      /\ UNCHANGED << alock, slock, inbox, delivered, connClosed, readDeadline, 
+                      state, closeWriteLoopCh, readLoopCloseCh, acceptChClosed, 
+                      awake, connWaiting, hsResult, readErr, readable, 
+                      willAbort, abortSent, timersClosed, wfail, sentPkts >>
+
+t1l == /\ pc[3] = "t1l"
+       /\ alock = 0
+       /\ alock' = 3
+       /\ pc' = [pc EXCEPT ![3] = "t1u"]
+       /\ UNCHANGED << slock, inbox, delivered, connClosed, readDeadline, 
+                       state, closeWriteLoopCh, readLoopCloseCh, 
+                       acceptChClosed, awake, connWaiting, hsResult, readErr, 
+                       readable, willAbort, abortSent, timersClosed, t1Count, 
+                       wfail, sentPkts >>
+
+t1u == /\ pc[3] = "t1u"
+       /\ awake' = TRUE
+       /\ alock' = 0
+       /\ pc' = [pc EXCEPT ![3] = "t1"]
+       /\ UNCHANGED << slock, inbox, delivered, connClosed, readDeadline, 
+                       state, closeWriteLoopCh, readLoopCloseCh, 
+                       acceptChClosed, connWaiting, hsResult, readErr, 
+                       readable, willAbort, abortSent, timersClosed, t1Count, 
+                       wfail, sentPkts >>
+
+t1f == /\ pc[3] = "t1f"
+       /\ IF state = "cookieWait" /\ ~timersClosed
+             THEN /\ pc' = [pc EXCEPT ![3] = "t1fl"]
+             ELSE /\ pc' = [pc EXCEPT ![3] = "Done"]
+       /\ UNCHANGED << alock, slock, inbox, delivered, connClosed, 
+                       readDeadline, state, closeWriteLoopCh, readLoopCloseCh, 
+                       acceptChClosed, awake, connWaiting, hsResult, readErr, 
+                       readable, willAbort, abortSent, timersClosed, t1Count, 
+                       wfail, sentPkts >>
+
+t1fl == /\ pc[3] = "t1fl"
+        /\ alock = 0
+        /\ alock' = 3
+        /\ pc' = [pc EXCEPT ![3] = "t1fc"]
+        /\ UNCHANGED << slock, inbox, delivered, connClosed, readDeadline, 
+                        state, closeWriteLoopCh, readLoopCloseCh, 
+                        acceptChClosed, awake, connWaiting, hsResult, readErr, 
+                        readable, willAbort, abortSent, timersClosed, t1Count, 
+                        wfail, sentPkts >>
+
+t1fc == /\ pc[3] = "t1fc"
+        /\ connWaiting \/ closeWriteLoopCh \/ readLoopCloseCh
+        /\ IF connWaiting /\ hsResult = "none"
+              THEN /\ hsResult' = "err"
+                   /\ connWaiting' = FALSE
+              ELSE /\ TRUE
+                   /\ UNCHANGED << connWaiting, hsResult >>
+        /\ pc' = [pc EXCEPT ![3] = "t1fu"]
+        /\ UNCHANGED << alock, slock, inbox, delivered, connClosed, 
+                        readDeadline, state, closeWriteLoopCh, readLoopCloseCh, 
+                        acceptChClosed, awake, readErr, readable, willAbort, 
+                        abortSent, timersClosed, t1Count, wfail, sentPkts >>
+
+t1fu == /\ pc[3] = "t1fu"
+        /\ alock' = 0
+        /\ pc' = [pc EXCEPT ![3] = "Done"]
+        /\ UNCHANGED << slock, inbox, delivered, connClosed, readDeadline, 
+                        state, closeWriteLoopCh, readLoopCloseCh, 
+                        acceptChClosed, awake, connWaiting, hsResult, readErr, 
+                        readable, willAbort, abortSent, timersClosed, t1Count, 
+                        wfail, sentPkts >>
+
+T1 == t1 \/ t1l \/ t1u \/ t1f \/ t1fl \/ t1fc \/ t1fu
+
+c1 == /\ pc[4] = "c1"
+      /\ hsResult # "none" \/ readLoopCloseCh
+      /\ connWaiting' = FALSE
+      /\ pc' = [pc EXCEPT ![4] = "Done"]
+      /\ UNCHANGED << alock, slock, inbox, delivered, connClosed, readDeadline, 
+                      state, closeWriteLoopCh, readLoopCloseCh, acceptChClosed, 
+                      awake, hsResult, readErr, readable, willAbort, abortSent, 
+                      timersClosed, t1Count, wfail, sentPkts >>
+
+Connect == c1
+
+r1 == /\ pc[5] = "r1"
+      /\ slock = 0
+      /\ slock' = 5
+      /\ pc' = [pc EXCEPT ![5] = "r2"]
+      /\ UNCHANGED << alock, inbox, delivered, connClosed, readDeadline, state, 
+                      closeWriteLoopCh, readLoopCloseCh, acceptChClosed, awake, 
+                      connWaiting, hsResult, readErr, readable, willAbort, 
+                      abortSent, timersClosed, t1Count, wfail, sentPkts >>
+
+r2 == /\ pc[5] = "r2"
+      /\ IF ~readable /\ ~readErr
+            THEN /\ pc' = [pc EXCEPT ![5] = "r3"]
+            ELSE /\ pc' = [pc EXCEPT ![5] = "r5"]
+      /\ UNCHANGED << alock, slock, inbox, delivered, connClosed, readDeadline, 
+                      state, closeWriteLoopCh, readLoopCloseCh, acceptChClosed, 
+                      awake, connWaiting, hsResult, readErr, readable, 
+                      willAbort, abortSent, timersClosed, t1Count, wfail, 
+                      sentPkts >>
+
+r3 == /\ pc[5] = "r3"
+      /\ slock' = 0
+      /\ pc' = [pc EXCEPT ![5] = "r4"]
+      /\ UNCHANGED << alock, inbox, delivered, connClosed, readDeadline, state, 
+                      closeWriteLoopCh, readLoopCloseCh, acceptChClosed, awake, 
+                      connWaiting, hsResult, readErr, readable, willAbort, 
+                      abortSent, timersClosed, t1Count, wfail, sentPkts >>
+
+r4 == /\ pc[5] = "r4"
+      /\ (readable \/ readErr) /\ slock = 0
+      /\ slock' = 5
+      /\ pc' = [pc EXCEPT ![5] = "r2"]
+      /\ UNCHANGED << alock, inbox, delivered, connClosed, readDeadline, state, 
+                      closeWriteLoopCh, readLoopCloseCh, acceptChClosed, awake, 
+                      connWaiting, hsResult, readErr, readable, willAbort, 
+                      abortSent, timersClosed, t1Count, wfail, sentPkts >>
+
+r5 == /\ pc[5] = "r5"
+      /\ slock' = 0
+      /\ pc' = [pc EXCEPT ![5] = "Done"]
+      /\ UNCHANGED << alock, inbox, delivered, connClosed, readDeadline, state, 
+                      closeWriteLoopCh, readLoopCloseCh, acceptChClosed, awake, 
+                      connWaiting, hsResult, readErr, readable, willAbort, 
+                      abortSent, timersClosed, t1Count, wfail, sentPkts >>
+
+Reader == r1 \/ r2 \/ r3 \/ r4 \/ r5
+
+cl0(self) == /\ pc[self] = "cl0"
+             /\ \/ /\ TRUE
+                   /\ pc' = [pc EXCEPT ![self] = "cl1"]
+                \/ /\ pc' = [pc EXCEPT ![self] = "cldone"]
+             /\ UNCHANGED << alock, slock, inbox, delivered, connClosed, 
+                             readDeadline, state, closeWriteLoopCh, 
+                             readLoopCloseCh, acceptChClosed, awake, 
+                             connWaiting, hsResult, readErr, readable, 
+                             willAbort, abortSent, timersClosed, t1Count, 
+                             wfail, sentPkts >>
+
+cl1(self) == /\ pc[self] = "cl1"
+             /\ state' = "closed"
+             /\ connClosed' = TRUE
+             /\ timersClosed' = TRUE
+             /\ closeWriteLoopCh' = TRUE
+             /\ pc' = [pc EXCEPT ![self] = "cl2"]
+             /\ UNCHANGED << alock, slock, inbox, delivered, readDeadline, 
+                             readLoopCloseCh, acceptChClosed, awake, 
+                             connWaiting, hsResult, readErr, readable, 
+                             willAbort, abortSent, t1Count, wfail, sentPkts >>
+
+cl2(self) == /\ pc[self] = "cl2"
+             /\ readLoopCloseCh
+             /\ pc' = [pc EXCEPT ![self] = "cldone"]
+             /\ UNCHANGED << alock, slock, inbox, delivered, connClosed, 
+                             readDeadline, state, closeWriteLoopCh, 
+                             readLoopCloseCh, acceptChClosed, awake, 
+                             connWaiting, hsResult, readErr, readable, 
+                             willAbort, abortSent, timersClosed, t1Count, 
+                             wfail, sentPkts >>
+
+cldone(self) == /\ pc[self] = "cldone"
+                /\ TRUE
+                /\ pc' = [pc EXCEPT ![self] = "Done"]
+                /\ UNCHANGED << alock, slock, inbox, delivered, connClosed, 
+                                readDeadline, state, closeWriteLoopCh, 
+                                readLoopCloseCh, acceptChClosed, awake, 
+                                connWaiting, hsResult, readErr, readable, 
+                                willAbort, abortSent, timersClosed, t1Count, 
+                                wfail, sentPkts >>
+
+Closer(self) == cl0(self) \/ cl1(self) \/ cl2(self) \/ cldone(self)
+
+ab0 == /\ pc[8] = "ab0"
+       /\ \/ /\ TRUE
+             /\ pc' = [pc EXCEPT ![8] = "ab1"]
+          \/ /\ pc' = [pc EXCEPT ![8] = "abdone"]
+       /\ UNCHANGED << alock, slock, inbox, delivered, connClosed, 
+                       readDeadline, state, closeWriteLoopCh, readLoopCloseCh, 
+                       acceptChClosed, awake, connWaiting, hsResult, readErr, 
+                       readable, willAbort, abortSent, timersClosed, t1Count, 
+                       wfail, sentPkts >>
+
+ab1 == /\ pc[8] = "ab1"
+       /\ alock = 0
+       /\ alock' = 8
+       /\ pc' = [pc EXCEPT ![8] = "ab2"]
+       /\ UNCHANGED << slock, inbox, delivered, connClosed, readDeadline, 
+                       state, closeWriteLoopCh, readLoopCloseCh, 
+                       acceptChClosed, awake, connWaiting, hsResult, readErr, 
+                       readable, willAbort, abortSent, timersClosed, t1Count, 
+                       wfail, sentPkts >>
+
+ab2 == /\ pc[8] = "ab2"
+       /\ willAbort' = TRUE
+       /\ alock' = 0
+       /\ pc' = [pc EXCEPT ![8] = "ab3"]
+       /\ UNCHANGED << slock, inbox, delivered, connClosed, readDeadline, 
+                       state, closeWriteLoopCh, readLoopCloseCh, 
+                       acceptChClosed, awake, connWaiting, hsResult, readErr, 
+                       readable, abortSent, timersClosed, t1Count, wfail, 
+                       sentPkts >>
+
+ab3 == /\ pc[8] = "ab3"
+       /\ awake' = TRUE
+       /\ pc' = [pc EXCEPT ![8] = "ab4"]
+       /\ UNCHANGED << alock, slock, inbox, delivered, connClosed, 
+                       readDeadline, state, closeWriteLoopCh, readLoopCloseCh, 
+                       acceptChClosed, connWaiting, hsResult, readErr, 
+                       readable, willAbort, abortSent, timersClosed, t1Count, 
+                       wfail, sentPkts >>
+
+ab4 == /\ pc[8] = "ab4"
+       /\ abortSent \/ TRUE
+       /\ pc' = [pc EXCEPT ![8] = "ab5"]
+       /\ UNCHANGED << alock, slock, inbox, delivered, connClosed, 
+                       readDeadline, state, closeWriteLoopCh, readLoopCloseCh, 
+                       acceptChClosed, awake, connWaiting, hsResult, readErr, 
+                       readable, willAbort, abortSent, timersClosed, t1Count, 
+                       wfail, sentPkts >>
+
+ab5 == /\ pc[8] = "ab5"
+       /\ readDeadline' = TRUE
+       /\ pc' = [pc EXCEPT ![8] = "ab6"]
+       /\ UNCHANGED << alock, slock, inbox, delivered, connClosed, state, 
+                       closeWriteLoopCh, readLoopCloseCh, acceptChClosed, 
+                       awake, connWaiting, hsResult, readErr, readable, 
+                       willAbort, abortSent, timersClosed, t1Count, wfail, 
+                       sentPkts >>
+
+ab6 == /\ pc[8] = "ab6"
+       /\ readLoopCloseCh
+       /\ pc' = [pc EXCEPT ![8] = "abdone"]
+       /\ UNCHANGED << alock, slock, inbox, delivered, connClosed, 
+                       readDeadline, state, closeWriteLoopCh, readLoopCloseCh, 
+                       acceptChClosed, awake, connWaiting, hsResult, readErr, 
+                       readable, willAbort, abortSent, timersClosed, t1Count, 
+                       wfail, sentPkts >>
+
+abdone == /\ pc[8] = "abdone"
+          /\ TRUE
+          /\ pc' = [pc EXCEPT ![8] = "Done"]
+          /\ UNCHANGED << alock, slock, inbox, delivered, connClosed, 
+                          readDeadline, state, closeWriteLoopCh, 
+                          readLoopCloseCh, acceptChClosed, awake, connWaiting, 
+                          hsResult, readErr, readable, willAbort, abortSent, 
+                          timersClosed, t1Count, wfail, sentPkts >>
+
+Aborter == ab0 \/ ab1 \/ ab2 \/ ab3 \/ ab4 \/ ab5 \/ ab6 \/ abdone
+
+e1 == /\ pc[9] = "e1"
+      /\ IF sentPkts < MaxPkts /\ ~connClosed
+            THEN /\ \/ /\ inbox' = inbox + 1
+                       /\ sentPkts' = sentPkts + 1
+                       /\ UNCHANGED connClosed
+                    \/ /\ connClosed' = TRUE
+                       /\ UNCHANGED <<inbox, sentPkts>>
+                 /\ pc' = [pc EXCEPT ![9] = "e1"]
+            ELSE /\ pc' = [pc EXCEPT ![9] = "Done"]
+                 /\ UNCHANGED << inbox, connClosed, sentPkts >>
+      /\ UNCHANGED << alock, slock, delivered, readDeadline, state, 
+                      closeWriteLoopCh, readLoopCloseCh, acceptChClosed, awake, 
+                      connWaiting, hsResult, readErr, readable, willAbort, 
+                      abortSent, timersClosed, t1Count, wfail >>
+
+Env == e1
+
+(* Allow infinite stuttering to prevent deadlock on termination. *)
+Terminating == /\ \A self \in ProcSet: pc[self] = "Done"
+               /\ UNCHANGED vars
+
+Next == ReadLoop \/ WriteLoop \/ T1 \/ Connect \/ Reader \/ Aborter \/ Env
+           \/ (\E self \in {6, 7}: Closer(self))
+           \/ Terminating
+
+Spec == /\ Init /\ [][Next]_vars
+        /\ WF_vars(ReadLoop)
+        /\ WF_vars(WriteLoop)
+        /\ WF_vars(T1)
+        /\ WF_vars(Connect)
+        /\ WF_vars(Reader)
+        /\ \A self \in {6, 7} : WF_vars(Closer(self))
+        /\ WF_vars(Aborter)
+
+Termination == <>(\A self \in ProcSet: pc[self] = "Done")
+
 \* END TRANSLATION
 
 \* ---------------------------------------------------------------- properties
